@@ -194,6 +194,20 @@ class IRExec:
             d = float(tok)
         if d != d or d in (float("inf"), float("-inf")):
             raise Unsupported(f"non-finite constant {tok}")
+        import math
+        c = self.ctx
+        named = {math.sqrt(2.0): lambda: c.root(2, RV(2)), 1 / math.sqrt(2.0): lambda: 1 / c.root(2, RV(2)),
+                 math.sqrt(0.5): lambda: 1 / c.root(2, RV(2)),
+                 1 / math.pi: lambda: 1 / c.pi, 2 / math.pi: lambda: 2 / c.pi,
+                 2 / math.sqrt(math.pi): lambda: 2 / c.root(2, c.pi), math.sqrt(3.0): lambda: c.root(2, RV(3))}
+        if d in named:
+            return named[d]()
+        # constant-folded small rational multiples of M_PI (2*M_PI, M_PI/2, ...)
+        if d != 0 and abs(d) < 64:
+            q = Fraction(d / math.pi).limit_denominator(12)
+            if q != 0 and abs(float(q) * math.pi - d) <= 2 * abs(math.nextafter(d, math.inf) - d):
+                if kappa_float(d).denominator > 10**6:
+                    return RV(q) * self.ctx.pi
         return RV(kappa_float(d))
 
     def val(self, ty, tok):
@@ -393,6 +407,19 @@ class IRExec:
             ptr = self.regs[p]
             if ty != "double":
                 raise Unsupported(f"load of {ty}")
+            if not isinstance(ptr.off, int):
+                # clang turned a select between two loads into a load from a selected address
+                kind = {"states": "state", "parameters": "parameter", "missing_variables": "missing"}.get(ptr.base)
+                if kind is None:
+                    raise Unsupported(f"symbolic offset load from {ptr.base}")
+                n = len(self.index_maps.get(kind, {}))
+                res = None
+                for j in reversed(range(n)):
+                    tj = self.input_term(ptr.base, j)
+                    res = tj if res is None else z3.If(ptr.off == j, tj, res)
+                if res is None:
+                    raise Unsupported("symbolic offset into empty array")
+                return res
             key = (ptr.base, ptr.off)
             if key in self.stores:
                 return self.stores[key]
@@ -400,10 +427,12 @@ class IRExec:
                 raise ArtefactError("UnsetRead", f"read of values[{ptr.off}] before it is written")
             return self.input_term(ptr.base, ptr.off)
         if op == "getelementptr":
-            m = re.match(r"^getelementptr (?:inbounds )?double, double\* (%[\w.]+), i64 (-?\d+)$", rhs)
+            m = re.match(r"^getelementptr (?:inbounds )?double, double\* (%[\w.]+), i64 (-?\d+|%[\w.]+)$", rhs)
             if not m:
                 raise Unsupported(rhs)
             base = self.regs[m.group(1)]
+            if m.group(2).startswith("%"):
+                return Ptr(base.base, base.off + self.regs[m.group(2)])
             return Ptr(base.base, base.off + int(m.group(2)))
         if op == "phi":
             m = re.match(rf"^phi {FL}(\w+) (.+)$", rhs)
